@@ -1,0 +1,27 @@
+//go:build verif
+// +build verif
+
+// Contracts for the verification machinery in /verif (comment-only; compiled only with -tags verif).
+package token
+
+//@ ghost field Pool.issued set
+//@ pred poolwf(p) := p != nil && 0 <= p.off && p.off <= len(p.block) && (forall r :: p.issued[r] ==> (0 < r && r < ref(p.block, p.off)))
+
+//@ func NewPool
+//@   requires blockSize >= 1
+//@   ensures result != nil && fresh(result)
+//@   ensures len(result.block) == blockSize && result.off == 0
+//@   ensures result.issued == empty()
+//@   ensures poolwf(result)
+//@   modifies nothing
+//@   props C18, C01
+
+//@ func (*Pool).Get
+//@   requires len(p.block) >= 1 && poolwf(p)
+//@   ensures result != nil
+//@   ensures !old(p.issued)[result]
+//@   ensures p.issued == add(old(p.issued), result)
+//@   ensures poolwf(p) && len(p.block) == old(len(p.block))
+//@   ghost-return p.issued := add(p.issued, result)
+//@   modifies p.block, p.off, p.issued
+//@   props C18, C01, C04
